@@ -27,6 +27,23 @@ def name_of(i):
     return _INTERN_REV.get(i)
 
 
+class NameK:
+    """a concrete integer-coded name (service / OS / process number k of the scenario lists)"""
+    __slots__ = ("k",)
+
+    def __init__(self, k):
+        self.k = int(k)
+
+    def __eq__(self, o):
+        return isinstance(o, NameK) and o.k == self.k
+
+    def __hash__(self):
+        return hash(("NameK", self.k))
+
+    def __repr__(self):
+        return f"name#{self.k}"
+
+
 class EngineLimit(Exception):
     """The engine met something it does not model: the function is OUT OF REACH (exit 2),
     never 'proved' and never 'violation'."""
@@ -234,9 +251,10 @@ class SymDict:
 class SymColl:
     """membership-only collection: contains(x) -> z3 Bool"""
 
-    def __init__(self, contains, label="coll"):
+    def __init__(self, contains, label="coll", nonempty=None):
         self.contains = contains
         self.label = label
+        self.nonempty = nonempty     # z3 Bool: the collection has at least one element (None: unknown)
 
 
 class SDict:
@@ -423,6 +441,8 @@ def nameval(x):
         raise EngineLimit(f"name code of {x}")
     if x is None:
         return z3.IntVal(NONE_ID)
+    if isinstance(x, NameK):
+        return z3.IntVal(x.k)
     if isinstance(x, str):
         return z3.IntVal(intern_name(x))
     if isinstance(x, int) and not isinstance(x, bool):
@@ -454,6 +474,7 @@ def mk(t, ty):
             nm = name_of(k)
             if nm is not None:
                 return nm
+            return NameK(k)
     return SymV(s, ty)
 
 
@@ -466,6 +487,6 @@ def kind_of(v):
         return "int"
     if isinstance(v, float):
         return "real"
-    if isinstance(v, str) or v is None:
+    if isinstance(v, (str, NameK)) or v is None:
         return "name"
     return None
